@@ -25,6 +25,13 @@ import (
 )
 
 func scenC06(w *vsim.World, spec *vsim.Spec) {
+	// the goroutines of GetCurrentState are simulator tasks (rule R2); in two runs of three they may also
+	// lose the processor before any statement of that function (rule R9)
+	w.PreemptOn = w.Choose("statement-preemption", 3) != 0
+	if w.PreemptOn {
+		// slow threads: a goroutine of GetCurrentState may also be descheduled for 1 ms .. 5 s there
+		w.StallPM, w.StallBudget = []int{0, 30, 150}[w.Choose("stall-rate", 3)], 2
+	}
 	switch w.Choose("c06 part", 3) {
 	case 0:
 		scenC06Paging(w, spec)
